@@ -555,6 +555,14 @@ def o_C05(x, ctx):
     # 3. same-type arrival order among the events dispatched in this call
     lastser = {}
     cond_types = {z.eid[e] for m in z.machines() for s in m.states if s.cond_defer for e in s.defer}
+    if ctx.cfg in ('m', 'mf', 'mc'):
+        # backmp11 documents FIFO processing for state-property deferral only (backmp11-back-end.adoc: "configure
+        # event deferral as a state property ... This enables processing of deferred events in FIFO order"):
+        # event types that some row defers through a Defer action are outside the order clause there
+        for m in z.machines():
+            for r in list(m.rows) + [ir for s in m.states for ir in s.irows] + list(m.irows):
+                if r.defer and r.evt in z.eid:
+                    cond_types.add(z.eid[r.evt])
     for t in x.trace:
         if t.K == 'A' and t.serial >= 0 and t.eid > 0:
             e = t.eid % 1000
